@@ -111,7 +111,7 @@ def run(ctx):
         u = bitarray([0] * 144)
         u[i] = 1
         add_block(u)
-    for k in range(300 if ctx.quick else 20000):
+    for k in range(300 if ctx.quick else 60000):
         add_block(bitarray([rng.getrandbits(1) for _ in range(144)]), impolite=k % 3 == 0, little=k % 4 == 1)
     for k in range(40):         # the same few blocks again and again, results damaged in between
         add_block(raw_blocks[k % 5][0].copy(), impolite=True)
@@ -139,7 +139,7 @@ def run(ctx):
     inv_i = data["I"]           # out[j] = in[I[j]]
     pos_of_in = {inp: j for j, inp in enumerate(inv_i)}
     key = {d["d"]: d["bits"] for d in data["DB"]}
-    for _ in range(200 if ctx.quick else 5000):
+    for _ in range(200 if ctx.quick else 20000):
         b, enc = rng.choice(raw_blocks)
         if len(enc) != 196:
             continue
